@@ -5,6 +5,7 @@ package main
 // the oracle/env encoders shared by all tree-level legs.
 
 import (
+	"fmt"
 	"unicode"
 
 	"github.com/dlclark/regexp2/v2/syntax"
@@ -288,7 +289,9 @@ func Elab(a *Ast, o Opts) *TreeWire {
 func exportNode(t *TreeWire, n *syntax.RegexNode, setIDs map[string]int) {
 	set := 0
 	if n.Set != nil && (n.T == ntSet || n.T == ntSetloop || n.T == ntSetlazy || n.T == 45) {
-		key := string(n.Set.Hash())
+		// (the serialised form alone is not enough: it writes surrogate range endpoints as U+FFFD)
+		rs, _, _, _, _, _, _ := syntax.VerifCharSetFields(n.Set)
+		key := string(n.Set.Hash()) + fmt.Sprint(rs)
 		id, ok := setIDs[key]
 		if !ok {
 			cs := n.Set
